@@ -96,3 +96,13 @@ func (c *Client) VerifOpen() bool {
 		return true
 	}
 }
+
+// VerifSetAddrFormat replaces the URL format of the WebSocket transport
+// ("wss://%s%s?method=POST") so that an in-process plain-HTTP relay can be
+// dialled, and returns the previous format.
+func VerifSetAddrFormat(format string) string {
+	old := addrFormat
+	addrFormat = format
+
+	return old
+}
